@@ -196,23 +196,28 @@ def objChecks (kw : Kw) (kvs : List (String × J)) : List Check :=
     (minPropsBad kw kvs.length, here "minProperties" v [.lit "there must be at least ", .schemaNat kw.minProps, .lit " properties"], false),
     (maxPropsBad kw kvs.length, here "maxProperties" v [.lit "there must be at most ", .schemaNat (kw.maxProps.getD 0), .lit " properties"], false) ]
 
-def reqChecks (v : J) (kvs : List (String × J)) (ks : List String) : List Check :=
-  ks.map (fun k => ((lookup k kvs).isNone, mark (.key k) (here "required" v [.lit "property ", .schemaQ k, .lit " is missing"]), false))
+def reqChecks (env : Env) (p : List (String × S)) (v : J) (kvs : List (String × J)) (ks : List String) : List Check :=
+  ks.map (fun k => (!reqOK env p kvs k, mark (.key k) (here "required" v [.lit "property ", .schemaQ k, .lit " is missing"]), false))
+
+/-- the (non-schema) errors "readOnly property … in request" / "writeOnly property … in response": collected first by the
+code but returned only when nothing else at this level returned before — hence last in the event order -/
+def roErr : Err := { field := "<readOnly/writeOnly property present>" }
 
 def numEvs (kw : Kw) (q : Rat) : List Ev := checkEvs (numChecks kw q)
 def strEvs (env : Env) (kw : Kw) (s : String) : List Ev := checkEvs (strChecks env kw s)
 def arrEvs (kw : Kw) (xs : List J) (childEvs : List Ev) : List Ev := checkEvs (arrChecks kw xs) ++ childEvs
-def objEvs (kw : Kw) (kvs : List (String × J)) (childEvs : List Ev) : List Ev :=
-  checkEvs (objChecks kw kvs) ++ childEvs ++ checkEvs (reqChecks (J.obj kvs) kvs kw.required)
+def objEvs (env : Env) (kw : Kw) (p : List (String × S)) (kvs : List (String × J)) (childEvs : List Ev) : List Ev :=
+  checkEvs (objChecks kw kvs) ++ childEvs ++ checkEvs (reqChecks env p (J.obj kvs) kvs kw.required) ++
+  chk (roBad env p kvs) roErr false
 
-def ownEvs (env : Env) (kw : Kw) (v : J) (childEvs : List Ev) : List Ev :=
+def ownEvs (env : Env) (kw : Kw) (p : List (String × S)) (v : J) (childEvs : List Ev) : List Ev :=
   match v with
   | .null => [.fail nullErr true]
   | .bool _ => chk (!kw.permits "boolean") (typeErr kw v) true
   | .num q => numEvs kw q
   | .str s => strEvs env kw s
   | .arr xs => arrEvs kw xs childEvs
-  | .obj kvs => objEvs kw kvs childEvs
+  | .obj kvs => objEvs env kw p kvs childEvs
 
 def discMissingErr (kw : Kw) : Err :=
   { field := "discriminator", value := none,
@@ -242,7 +247,7 @@ def oneOfReason (oneSubs : List (List Ev)) : List Frag :=
   else [.lit "value doesn't match any schema from \"oneOf\""]
 
 /-- non-recursive assembly of one schema visit, in the code's order -/
-def evCombine (env : Env) (kw : Kw) (a b c : List S) (shortcut : Bool) (v : J)
+def evCombine (env : Env) (kw : Kw) (a b c : List S) (p : List (String × S)) (shortcut : Bool) (v : J)
     (notEvs : List Ev) (oneSubs anySubs allSubs : List (List Ev)) (childEvs : List Ev) : List Ev :=
   if v.isNull && kw.permitsNull then [] else
   if shortcut then (if v.isNull then [.fail nullErr true] else []) else
@@ -251,7 +256,7 @@ def evCombine (env : Env) (kw : Kw) (a b c : List S) (shortcut : Bool) (v : J)
   (if b.isEmpty then [] else [.comp .anyOf (here "anyOf" v [.lit "doesn't match any schema from \"anyOf\""]) anySubs]) ++
   (if a.isEmpty then [] else [.comp .allOf (here "allOf" v [.lit "doesn't match all schemas from \"allOf\""]) allSubs]) ++
   (if v.isNull && (!c.isEmpty || !b.isEmpty || !a.isEmpty) then []
-   else enumEvs kw v ++ ownEvs env kw v childEvs)
+   else enumEvs kw v ++ ownEvs env kw p v childEvs)
 
 /-- a member of an object: declared property, else additionalProperties, else "unsupported" -/
 def propEv (whole : J) (has : Option Bool) (k : String) (rProp rAdd : Option (List Ev)) : List Ev :=
@@ -264,7 +269,7 @@ def propEv (whole : J) (has : Option Bool) (k : String) (rProp rAdd : Option (Li
 mutual
 def events (env : Env) : S → J → List Ev
   | .mk kw a b c n i p ad, v =>
-    evCombine env kw a b c (S.mk kw a b c n i p ad).shortcut v
+    evCombine env kw a b c p (S.mk kw a b c n i p ad).shortcut v
       (match n with | none => [] | some s => [.comp .not (here "not" v [.lit "Doesn't match schema \"not\""]) [events env s v]])
       (eventsSel env (discCheck kw v).ref c v) (eventsEach env b v) (eventsEach env a v)
       (match v with
